@@ -894,6 +894,9 @@ class Translator:
                 return 'VERIF_QUEUE_%s(%s)' % (name.upper(), ox)
             if name == 'push':
                 return 'VERIF_QUEUE_PUSH(%s, %s)' % (ox, self.e(args[0]))
+        if ot.startswith('std::bitset<16>::reference') and name == 'operator bool':
+            self.rules['std::bitset<16>::reference -> bit value'] += 1
+            return '(%s != 0)' % self.e(obj)
         if ot.startswith('std::bitset<16>'):
             ox = self.e(obj)
             self.rules['std::bitset<16>::%s -> u16 op' % name] += 1
